@@ -610,8 +610,15 @@ def run(ctx):
                     okf = x.shape == en.shape and np.array_equal(x, en) and np.allclose(w, ew, rtol=1e-13, atol=0)
                     okf = okf and abs(sum(fl(w)) - mass) <= Fraction(1, 10**10) * mass
                     if not okf:
-                        fail("argument_form", "%s(%s): not the tensor product of the 1-d rules with scalars repeated d times / wrong total mass" % (name, label),
-                             inp, float(np.sum(w)), float(mass))
+                        both_scalar = np.ndim(af) == 0 and np.ndim(bf) == 0
+                        if (name == "qnwunif" and both_scalar and x.shape == en.shape and np.array_equal(x, en)
+                                and np.allclose(w, ew * float(vol) / (float(bf) - float(af)), rtol=1e-12, atol=0)):
+                            # weights divided by (b-a) instead of (b-a)^d: np.prod(b - a) of two scalars
+                            fail("qnwunif_scalar_endpoints", "qnwunif with d=%d dimensions and scalar endpoints divides the Legendre weights by (b-a), not "
+                                 "(b-a)^d: total mass %.6g instead of 1" % (d, float(np.sum(w))), dict(inp, scalar_endpoints=True, d=d), float(np.sum(w)), 1.0)
+                        else:
+                            fail("argument_form", "%s(%s): not the tensor product of the 1-d rules with scalars repeated d times / wrong total mass" % (name, label),
+                                 inp, float(np.sum(w)), float(mass))
             # qnwequi (all kinds) and quadrect (all kinds): weights volume/N, nodes in the box, quadrect(1) = volume
             N = int(np.prod(n))
             for kind in "NWHR":
